@@ -12,14 +12,17 @@ PID = "C17"
 PROP_FILES = ["Prop"]
 ALLOWED_AXIOMS = []
 EXTRA_COQ_DIRS = []
-RULE = ("a case = (wait flag, control script over play/pause/resume/stop/close issued by the main thread, "
-        "complete schedule = list of thread ids chosen at the synchronisation points); play commands use float32 or "
-        "integer sample formats (b/h/i), ragged lengths (zero padding), and iterables that raise after k chunks "
-        "(playbad); schedules are discovered on the IMPLEMENTATION: all schedules with <= 2 pre-emptions (<= 1 for the "
-        "larger ones) for the small configurations (1-2 players, 1-3 chunks, <= 2-3 control calls before close), seeded "
-        "random walks beyond (up to 3 players, 6 control calls, close in the middle, repeated close, play after close, "
-        "scripts without close); each one is re-executed and replayed in Coq; non-trivial = at least one pre-emption "
-        "and at least one control call")
+RULE = ("a case = (wait flag, control script over play/pause/resume/stop/close issued by the main thread, chunks "
+        "strategy used as chunks.default (struct / array), entry point of close (close / terminate / __exit__), complete "
+        "schedule = list of thread ids chosen at the synchronisation points); play commands vary the sample format "
+        "(f/h/i/b), channels (1/2), ragged lengths, the argument kind of the audio (list, tuple, generator, iterator, "
+        "Stream, and instrumented sources whose every next() is a yield point so that players are pre-empted in "
+        "mid-chunk), the call style (explicit keywords, defaults omitted, rate=, deprecated nchannels=) and iterables "
+        "that raise after k chunks; the backend records the open() parameters and, per write, the frame count and "
+        "the buffer length; schedules are discovered on the IMPLEMENTATION: all schedules with <= 2 pre-emptions (<= 1 "
+        "for the larger ones) for the small configurations, including 2-3 concurrent players with instrumented "
+        "sources under both strategies, seeded random walks beyond; each one is re-executed and replayed in Coq; "
+        "non-trivial = at least one pre-emption and at least one control call")
 EXHAUSTIVE = {"quick": False, "thorough": False}
 trusted_base = [
   "harness/C17_sched.py: baton scheduler over real OS threads; fake pyaudio/_portaudio (sys.modules), "
@@ -62,13 +65,13 @@ _abnormal = [False]
 MAX_STEPS = 1000     # no legitimate schedule of the generated configurations comes near (measure <= ~500)
 
 
-def explore(wait, script, bound, cap):
+def explore(wait, script, bound, cap, strategy="struct"):
   """All schedules of the implementation with at most `bound` pre-emptions (depth first, at most `cap`).
   A run that does not end by itself (step bound, hang, exception) is reported once and not expanded."""
   res, stack = [], [([], 0)]
   while stack and len(res) < cap:
     prefix, used = stack.pop()
-    obs = S.run_schedule(wait, script, follow(prefix), max_steps=MAX_STEPS)
+    obs = S.run_schedule(wait, script, follow(prefix), max_steps=MAX_STEPS, strategy=strategy)
     steps = obs["steps"]
     sched = [s[0] for s in steps]
     res.append(sched)
@@ -87,12 +90,12 @@ def explore(wait, script, bound, cap):
   return res, not stack
 
 
-def random_walk(wait, script, rng, pswitch):
+def random_walk(wait, script, rng, pswitch, strategy="struct", close_via="close"):
   def ch(i, en, cur):
     if cur in en and rng.random() >= pswitch:
       return cur
     return en[rng.randrange(len(en))]
-  obs = S.run_schedule(wait, script, ch, max_steps=MAX_STEPS)
+  obs = S.run_schedule(wait, script, ch, max_steps=MAX_STEPS, strategy=strategy, close_via=close_via)
   if obs["status"] not in ("completed", "deadlock"):
     _abnormal[0] = True
   return [s[0] for s in obs["steps"]]
@@ -131,10 +134,9 @@ def small_configs(tier):
           np_, nch, n, bound, "" if bad is None else " bad=%d" % bad)))
 
   if tier == "quick":
-    for nch in (1, 2):
-      for n in (0, 1):
-        add(1, nch, n, 2)
-    add(1, 2, 2, 1)
+    add(1, 1, 0, 2)
+    add(1, 2, 0, 2)
+    add(1, 2, 1, 2)
     add(2, 1, 0, 1)
     add(1, 2, 0, 2, bad=0)
     add(1, 2, 0, 2, bad=1)
@@ -155,16 +157,44 @@ def small_configs(tier):
   return out
 
 
+KINDS = ["list", "tuple", "gen", "iter", "stream", "src", "src_stream", "src_gen"]
+
+
+def src_configs(tier):
+  """Players alive at the same time whose audio sources are yield points (pre-emption in mid-chunk), with
+  both chunk strategies as chunks.default: (wait, script, bound, strategy, tag)"""
+  out = []
+  for strategy in ("array", "struct"):
+    for (fa, fb, sa, sb) in [("f", "f", 2, 2), ("h", "h", 2, 2), ("f", "f", 2, 3), ("f", "h", 2, 2)]:
+      if tier == "quick" and ((fa, fb, sa, sb) not in [("f", "f", 2, 2), ("h", "h", 2, 2)]
+                              or (strategy == "struct" and fa == "h")):
+        continue
+      script = [["play", sa, 1, [1, 2, 3, 4, 5], fa, "src", "kw"],
+                ["play", sb, 1, [105, 106, 107, 108], fb, "src_stream" if fa == "h" else "src", "kw"], ["close"]]
+      out.append((True, script, 1, strategy, "src2 %s%s %d/%d %s" % (fa, fb, sa, sb, strategy)))
+    # stereo, one instrumented and one plain player, a control call in between
+    script = [["play", 1, 2, [1, 2, 3, 4, 5, 6], "i", "src_gen", "kw"], ["play", 1, 2, [101, 102, 103], "i", "gen", "kw"],
+              ["pause", 0], ["close"]]
+    if tier != "quick" or strategy == "array":
+      out.append((False, script, 1, strategy, "src+gen stereo %s" % strategy))
+    if tier != "quick":
+      script = [["play", 2, 1, [1, 2, 3, 4], "f", "src", "kw"], ["play", 2, 1, [105, 106, 107, 108], "f", "src", "kw"],
+                ["play", 2, 1, [205, 206], "f", "src", "kw"], ["close"]]
+      out.append((True, script, 1, strategy, "src3 %s" % strategy))
+  return out
+
+
 def gen_sched(tier, rng):
   seen = set()
   _abnormal[0] = False
 
-  def emit(wait, script, sched, tags):
-    key = json.dumps([wait, script, sched])
+  def emit(wait, script, sched, tags, strategy="struct", close_via="close"):
+    key = json.dumps([wait, script, sched, strategy])
     if key in seen:
       return None
     seen.add(key)
-    return {"wait": wait, "script": script, "sched": sched, "tags": tags}
+    return {"wait": wait, "script": script, "sched": sched, "tags": tags, "strategy": strategy,
+            "close_via": close_via}
 
   # witnesses of the two defects repaired by 978c428 and bdb2b32 (schedule prefixes of the old code)
   for wait, script, sched in WITNESSES:
@@ -180,6 +210,22 @@ def gen_sched(tier, rng):
         yield c
     if _abnormal[0]:
       return        # a run did not end by itself: one witness is enough, do not pile up runaway threads
+  # concurrent players with instrumented sources, both chunk strategies
+  for wait, script, bound, strategy, tag in src_configs(tier):
+    scheds, complete = explore(wait, script, bound, 1500 if tier == "quick" else 6000, strategy)
+    for sc in scheds:
+      c = emit(wait, script, sc, [tag, "src", "bounded"], strategy)
+      if c:
+        yield c
+    if _abnormal[0]:
+      return
+  # the deprecated keyword nchannels= (fixed by 4cd2dcb: the stream is opened with that channel count)
+  for ch in (1, 2):
+    script = [["play", 1, ch, [1, 2, 3, 4], "f", "list", "nchannels"], ["close"]]
+    sched = random_walk(True, script, rng, 0.0)
+    c = emit(True, script, sched, ["nchannels=%d" % ch])
+    if c:
+      yield c
   # seeded random walks over bigger configurations
   n = 400 if tier == "quick" else 4000
   for _ in range(n):
@@ -191,8 +237,13 @@ def gen_sched(tier, rng):
       if r < 0.15:        # an iterable that raises after some whole chunks
         nfull = len(script[k][3]) // (size * channels)
         script[k] = ["playbad", size, channels, script[k][3], rng.randrange(0, nfull + 1)]
-      elif r < 0.35:
-        script[k] = script[k] + [rng.choice(["h", "i", "b"])]
+      else:
+        fmt = rng.choice(["h", "i", "b"]) if r < 0.4 else "f"
+        kind = rng.choice(KINDS) if rng.random() < 0.6 else "list"
+        if kind.startswith("src") and len(script[k][3]) > 8:
+          kind = "gen"                       # keep instrumented schedules short
+        how = rng.choice(["kw", "kw", "rate", "omit"])
+        script[k] = script[k] + [fmt, kind, how]
     alphabet = ctl_alphabet(np_)[1:]
     for _k in range(rng.randrange(0, 7)):
       x = ["close"] if rng.random() < 0.08 else list(rng.choice(alphabet))
@@ -204,8 +255,11 @@ def gen_sched(tier, rng):
     if rng.random() < 0.2:
       script += [play(7, 1, size, channels)] + ([["close"]] if rng.random() < 0.5 else [])
     wait = rng.random() < 0.5
-    sched = random_walk(wait, script, rng, rng.choice([0.05, 0.15, 0.4, 0.8]))
-    c = emit(wait, script, sched, ["random", "np=%d" % np_, "wait" if wait else "nowait"])
+    strategy = rng.choice(["struct", "struct", "array"])
+    close_via = rng.choice(["close", "close", "terminate", "exit"])
+    sched = random_walk(wait, script, rng, rng.choice([0.05, 0.15, 0.4, 0.8]), strategy, close_via)
+    c = emit(wait, script, sched, ["random", "np=%d" % np_, "wait" if wait else "nowait", strategy, close_via],
+             strategy, close_via)
     if c:
       yield c
     if _abnormal[0]:
@@ -225,19 +279,26 @@ def run_sched(c):
       if i < len(pre) and pre[i] in en:
         return pre[i]
       return default_choice(i, en, cur)
-    return S.run_schedule(c["wait"], c["script"], ch, max_steps=MAX_STEPS + 50)
-  return S.run_schedule(c["wait"], c["script"], follow(c["sched"], None), max_steps=MAX_STEPS + 50)
+    return S.run_schedule(c["wait"], c["script"], ch, max_steps=MAX_STEPS + 50,
+                          strategy=c.get("strategy", "struct"), close_via=c.get("close_via", "close"))
+  return S.run_schedule(c["wait"], c["script"], follow(c["sched"], None), max_steps=MAX_STEPS + 50,
+                        strategy=c.get("strategy", "struct"), close_via=c.get("close_via", "close"))
 
 
 def lit_cmd(cmd):
   k = cmd[0]
   if k == "play":
-    return "CPlay %s %s" % (L.nat(cmd[1] * cmd[2]), L.lst([L.z(v) for v in cmd[3]]))
+    ctor = "CPlaySrc" if (len(cmd) > 5 and cmd[5].startswith("src")) else "CPlay"
+    return "%s %s %s" % (ctor, L.nat(cmd[1] * cmd[2]), L.lst([L.z(v) for v in cmd[3]]))
   if k == "playbad":
     return "CPlayBad %s %s %s" % (L.nat(cmd[1] * cmd[2]), L.lst([L.z(v) for v in cmd[3]]), L.nat(cmd[4]))
   if k == "close":
     return "CClose"
   return "%s %s" % ({"pause": "CPause", "resume": "CResume", "stop": "CStop"}[k], L.nat(cmd[1]))
+
+
+WIDTH = {"f": 4, "i": 4, "h": 2, "b": 1}
+FORMAT = {"f": 1, "i": 2, "h": 8, "b": 16}      # the PyAudio constants of lazy_io._STRUCT2PYAUDIO
 
 
 def lit_chunk(ch):
@@ -268,15 +329,29 @@ def lit_case(c, o):
       evs.append("ECloseRet %s" % L.lst(["(%s, %s)" % (L.boolean(a), L.boolean(h)) for a, h in e[1]]))
   pls = []
   for p in fin["players"]:
-    pls.append("FP %d %s %s %s %s %s" % (p["status"], L.boolean(p["halting"]), L.boolean(p["go"]),
-                                         L.boolean(p["tlock"]), L.boolean(p["open"]),
-                                         L.lst([lit_chunk(ch) for ch in p["written"]])))
+    kw = p.get("open_kw", {})
+    rate = kw.get("rate", 0)
+    okw = "(%d, %d, %d, %d)" % (kw.get("format", 0), kw.get("channels", 0),
+                                rate // 100 if rate % 100 == 0 else 4999, kw.get("frames_per_buffer", 0))
+    pls.append("FP %d %s %s %s %s %s %s %s %s" % (
+      p["status"], L.boolean(p["halting"]), L.boolean(p["go"]), L.boolean(p["tlock"]), L.boolean(p["open"]),
+      L.lst([lit_chunk(ch) for ch in p["written"]]),
+      L.lst([str(min(n, 4999)) for n in p.get("nframes", [])]),
+      L.lst([str(min(n, 4999)) for n in p.get("nbytes", [])]), okw))
   final = "(FS %s %s %s %s %s %s %d %s)" % (
     L.lst(pls), L.boolean(fin["finished"]), L.boolean(fin["hlock"]), L.boolean(fin["mlock"]),
     L.lst([str(t) for t in fin["threads"]]), L.lst([str(t) for t in fin.get("started", [])]), fin["terminated"],
     L.lst([str(99 if x < 0 else x) for x in fin["pending"]]))
-  return "(SC %s %s %s %d %s %s)" % (L.boolean(c["wait"]), L.lst([lit_cmd(x) for x in c["script"]]),
-                                     steps, status, L.lst(evs), final)
+  params = []
+  for cmd in c["script"]:
+    if cmd[0] == "close":
+      break
+    if cmd[0] in ("play", "playbad"):
+      fmt = cmd[4] if (cmd[0] == "play" and len(cmd) > 4) else "f"
+      how = cmd[6] if (cmd[0] == "play" and len(cmd) > 6) else "kw"
+      params.append("PP %d %d %d %d %d" % (cmd[1], cmd[2], WIDTH[fmt], FORMAT[fmt], 80 if how == "rate" else 441))
+  return "(SC %s %s %s %d %s %s %s)" % (L.boolean(c["wait"]), L.lst([lit_cmd(x) for x in c["script"]]),
+                                        steps, status, L.lst(evs), final, L.lst(params))
 
 
 def nontrivial(c, o):
